@@ -2,7 +2,7 @@
    C01 C03 C05 C17 need from them.
 
    Deviations from the invariant [OInv] as written in Outbound.v (both proved below to be
-   real: [OInv_ord_fails_reachable], [OInv_not_inductive]):
+   real: [OInv_two_records_absurd] + [OInv_not_preserved], [OInv_not_inductive]):
 
    (D1) [oi_ord1/oi_ord2r/oi_ord2p] quantify over every [sq] with [holds m k p sq].
         [le64] keeps the low 64 bits only, so [encode_value p (sq + 2^64) = encode_value p sq]
@@ -594,4 +594,390 @@ Proof.
   - intros n n' p p' sq sq' H1 H2 H3 Hb Hb' Hh Hh'.
     apply (holds_del_inv _ _ _ _ _ Hsort) in Hh, Hh'.
     apply (Hd2p n n' p p' sq sq'); tauto.
+Qed.
+
+(* ---- the steps ---- *)
+
+Ltac ost_cases Hstep st :=
+  destruct Hstep; destruct st as [mx1 mx2 ak sb1 ac1 q1 cp rc sb2 ac2 q2 tm cl rs m]; cbn in *.
+
+Ltac term_cases tm Hq1 Hq2 Hqt :=
+  destruct tm;
+  [ destruct (Hqt eq_refl) as [? ?]; subst; try discriminate; try congruence
+  | pose proof (Hq1 eq_refl); pose proof (Hq2 eq_refl); subst ].
+
+Lemma ostep_mono st st' : ostep st st' ->
+  o_max1 st' = o_max1 st /\ o_max2 st' = o_max2 st /\
+  o_acked st <= o_acked st' /\ o_acc1 st <= o_acc1 st' /\
+  o_compl st <= o_compl st' /\ o_recvd st <= o_recvd st' /\ o_acc2 st <= o_acc2 st' /\
+  o_rseq st <= o_rseq st'.
+Proof. intros Hstep. ost_cases Hstep st; repeat split; lia. Qed.
+
+Lemma cinv_step st st' : CInv st -> ostep st st' -> CInv st'.
+Proof.
+  intros [Hc1 Hc2 Hmax Hw1 Hw2 Hq1 Hq2 Hqt] Hstep.
+  ost_cases Hstep st; term_cases tm Hq1 Hq2 Hqt;
+    (constructor; cbn; rewrite ?len_app1, ?len_cons, ?len_nil in *;
+     try lia; try (intros; discriminate); try (intros; split; reflexivity); try assumption).
+Qed.
+
+Lemma sorted_step st st' : sorted_keys (o_store st) -> ostep st st' -> sorted_keys (o_store st').
+Proof.
+  intros Hsort Hstep.
+  ost_cases Hstep st; auto using sorted_keys_put, sorted_keys_del.
+Qed.
+
+Lemma sinv_step st st' : OInv' st -> ostep st st' -> o_rseq st' < M64 ->
+  SInv (o_acked st') (o_acc1 st') (o_compl st') (o_recvd st') (o_acc2 st') (o_rseq st') (o_store st').
+Proof.
+  intros [[HC HS] [Hsort Hrs]] Hstep Hrs'.
+  destruct HC as [Hc1 Hc2 Hmax Hw1 Hw2 Hq1 Hq2 Hqt].
+  ost_cases Hstep st.
+  - (* OS_accept1 *) pose proof (Hq1 H). apply SInv_accept1; [exact HS|lia..].
+  - (* OS_accept2 *) pose proof (Hq2 H). apply SInv_accept2; [exact HS|lia..].
+  - (* OS_save_failed *) apply (SInv_ext _ _ _ _ _ rs _ m); [reflexivity|lia|exact HS].
+  - (* OS_ack1 *) term_cases tm Hq1 Hq2 Hqt. rewrite len_cons in *.
+    apply SInv_ack1; [exact HS|exact Hsort|lia..].
+  - (* OS_rec2 *) term_cases tm Hq1 Hq2 Hqt; [rewrite len_nil in *; lia|].
+    apply SInv_rec2; [exact HS|lia..].
+  - (* OS_comp2 *) term_cases tm Hq1 Hq2 Hqt. rewrite len_cons in *.
+    apply SInv_comp2; [exact HS|exact Hsort|lia..].
+  - (* OS_submit *) exact HS.
+  - (* OS_marker_save *) apply SInv_put_other; [apply marker_not_pubkey; assumption|exact HS].
+  - (* OS_marker_del *) apply SInv_del_other; [exact Hsort|apply marker_not_pubkey; assumption|exact HS].
+  - (* OS_close *) exact HS.
+  - (* OS_term *) exact HS.
+Qed.
+
+(* the main theorem: the invariant is kept by every step, as long as the storage
+   counter stays inside the 64 bits of a record *)
+Theorem oinv_step : forall st st', OInv' st -> ostep st st' -> o_rseq st' < M64 -> OInv' st'.
+Proof.
+  intros st st' Hinv Hstep Hrs'. split; [split|split].
+  - exact (cinv_step _ _ (oif_cnt _ (proj1 Hinv)) Hstep).
+  - exact (sinv_step _ _ Hinv Hstep Hrs').
+  - exact (sorted_step _ _ (proj1 (proj2 Hinv)) Hstep).
+  - exact Hrs'.
+Qed.
+
+Lemma osteps_mono st st' : osteps st st' ->
+  o_max1 st' = o_max1 st /\ o_max2 st' = o_max2 st /\
+  o_acked st <= o_acked st' /\ o_acc1 st <= o_acc1 st' /\
+  o_compl st <= o_compl st' /\ o_recvd st <= o_recvd st' /\ o_acc2 st <= o_acc2 st' /\
+  o_rseq st <= o_rseq st'.
+Proof.
+  induction 1 as [st|a b c Hab Hbc IH].
+  - repeat split; lia.
+  - pose proof (ostep_mono _ _ Hab). intuition (try congruence; try lia).
+Qed.
+
+Theorem oinv_steps : forall st st', OInv' st -> osteps st st' -> o_rseq st' < M64 -> OInv' st'.
+Proof.
+  intros st st' Hinv Hsteps. induction Hsteps as [st|a b c Hab Hbc IH]; intros Hrs'.
+  - exact Hinv.
+  - apply IH; [|exact Hrs']. apply (oinv_step _ _ Hinv Hab).
+    pose proof (osteps_mono _ _ Hbc). lia.
+Qed.
+
+(* ================================================================== *)
+(* 5. The initial state                                                *)
+
+Definition ost_init (max1 max2 : N) (cid : list N) : ost :=
+  mkOst max1 max2 0 0 0 [] 0 0 0 0 [] false false 1 [(0, encode_value cid 1)].
+
+Lemma sinv_empty ak cp rs m :
+  (forall k v, store_get m k = Some v -> ~ pubkey k) -> SInv ak ak cp cp cp rs m.
+Proof.
+  intros H. constructor; intros; try lia.
+  - exfalso. eapply H; [eassumption|left; assumption].
+  - exfalso. eapply H; [eassumption|right; assumption].
+Qed.
+
+Lemma oinv_init : forall max1 max2 cid, max1 <= 16384 -> max2 <= 16384 ->
+  OInv' (mkOst max1 max2 0 0 0 [] 0 0 0 0 [] false false 1 [(0, encode_value cid 1)]).
+Proof.
+  intros max1 max2 cid H1 H2. split; [split|split].
+  - constructor; cbn; rewrite ?len_nil; try lia; intros; discriminate.
+  - cbn. apply sinv_empty. intros k v Hg [Hk|Hk]; cbn [store_get] in Hg;
+      destruct (N.eqb_spec 0 k) as [<-|]; try discriminate;
+      destruct zero_not_space; contradiction.
+  - cbn. split; [reflexivity|exact I].
+  - cbn. reflexivity.
+Qed.
+
+(* ================================================================== *)
+(* Findings: [OInv] of Outbound.v as written                           *)
+
+Theorem encode_value_wraps_mul p sq j : encode_value p (sq + j * M64) = encode_value p sq.
+Proof.
+  assert (E : le64 (sq + j * M64) = le64 sq).
+  { unfold le64. rewrite <- (le_enc_mod 8 (sq + j * M64)), <- (le_enc_mod 8 sq). f_equal.
+    change (256 ^ N.of_nat 8) with M64. apply N.mod_add. discriminate. }
+  unfold encode_value. cbv zeta. rewrite E. reflexivity.
+Qed.
+
+(* D1: the unbounded order clauses cannot hold with two records in one group *)
+Theorem OInv_two_records_absurd st : OInv st -> o_acked st + 1 < o_acc1 st -> False.
+Proof.
+  intros Hinv Hlt.
+  destruct (oi_s1 _ Hinv (o_acked st)) as (r & t & ms & sq & Hh & _); [lia|].
+  destruct (oi_s1 _ Hinv (o_acked st + 1)) as (r' & t' & ms' & sq' & Hh' & _); [lia|].
+  assert (Hw : holds (o_store st) (key1 (o_acked st)) (pub1_packet r t ms (o_acked st)) (sq + sq' * M64)).
+  { unfold holds. rewrite encode_value_wraps_mul. exact Hh. }
+  assert (Hsucc : o_acked st < o_acked st + 1) by lia.
+  pose proof (oi_ord1 _ Hinv (o_acked st) (o_acked st + 1) _ _ _ _ (N.le_refl _) Hsucc Hlt Hw Hh')
+    as Hord.
+  unfold M64 in Hord. lia.
+Qed.
+
+(* with at most one record per group the two invariants agree *)
+Lemma OInv_of_fixed st : OInv_fixed st ->
+  o_acc1 st <= o_acked st + 1 -> o_recvd st <= o_compl st + 1 -> o_acc2 st <= o_recvd st + 1 ->
+  OInv st.
+Proof.
+  intros [[] []] H1 H2 H3. constructor; try assumption; intros; lia.
+Qed.
+
+Theorem OInv_not_preserved :
+  exists st st', osteps (mkOst 16384 16384 0 0 0 [] 0 0 0 0 [] false false 1 [(0, encode_value [] 1)]) st /\
+                 OInv st /\ OInv' st /\ ostep st st' /\ ~ OInv st'.
+Proof.
+  set (st0 := mkOst 16384 16384 0 0 0 [] 0 0 0 0 [] false false 1 [(0, encode_value [] 1)]).
+  assert (Htc : topic_check [97] = None) by (vm_compute; reflexivity).
+  assert (Hsz : publish_size [97] [] alo_space <= packet_max) by (vm_compute; discriminate).
+  pose proof (OS_accept1 st0 false [97] [] 0 (o_sub1 st0) eq_refl eq_refl eq_refl Htc Hsz
+                (or_introl eq_refl)) as S01.
+  match type of S01 with ostep _ ?s => set (st1 := s) in * end.
+  pose proof (OS_accept1 st1 false [97] [] 0 (o_sub1 st1) eq_refl eq_refl eq_refl Htc Hsz
+                (or_introl eq_refl)) as S12.
+  match type of S12 with ostep _ ?s => set (st2 := s) in * end.
+  assert (H0 : OInv' st0) by (apply oinv_init; lia).
+  assert (H1 : OInv' st1) by (apply (oinv_step _ _ H0 S01); reflexivity).
+  exists st1, st2. split; [|split; [|split; [|split]]].
+  - eapply osteps_step; [exact S01|apply osteps_refl].
+  - apply OInv_of_fixed; [exact (proj1 H1)|cbn; lia..].
+  - exact H1.
+  - exact S12.
+  - intros Hinv. apply (OInv_two_records_absurd _ Hinv). cbn. lia.
+Qed.
+
+(* D2: without [oi_qt] the invariant is not inductive (state not reachable) *)
+Theorem OInv_not_inductive : exists st st', OInv st /\ ostep st st' /\ ~ OInv st'.
+Proof.
+  exists (mkOst 1 1 0 0 0 [0] 0 0 0 0 [] true false 1 []).
+  eexists. split; [|split].
+  - constructor; cbn; intros; try lia; try discriminate.
+  - apply (OS_ack1 _ 0 []). reflexivity.
+  - intros Hinv. pose proof (oi_c1 _ Hinv) as H. cbn in H. lia.
+Qed.
+
+(* ================================================================== *)
+(* 6. Consequences                                                     *)
+
+(* ---- C17 ---- *)
+
+Theorem inflight_le_max st : OInv' st ->
+  o_acc1 st - o_acked st <= o_max1 st /\ o_max1 st <= 16384 /\
+  o_acc2 st - o_compl st <= o_max2 st /\ o_max2 st <= 16384 /\
+  o_acked st <= o_acc1 st /\ o_compl st <= o_recvd st /\ o_recvd st <= o_acc2 st.
+Proof. intros [[[] _] _]. lia. Qed.
+
+Theorem ids_in_flight_distinct st n n' : OInv' st ->
+  o_acked st <= n < o_acc1 st -> o_acked st <= n' < o_acc1 st -> n <> n' -> key1 n <> key1 n'.
+Proof. intros H Hn Hn' Hne. pose proof (inflight_le_max _ H). apply key1_neq_near; lia. Qed.
+
+Theorem ids_in_flight_distinct2 st n n' : OInv' st ->
+  o_compl st <= n < o_acc2 st -> o_compl st <= n' < o_acc2 st -> n <> n' -> key2 n <> key2 n'.
+Proof. intros H Hn Hn' Hne. pose proof (inflight_le_max _ H). apply key2_neq_near; lia. Qed.
+
+Theorem ids_in_flight_levels n n' : key1 n <> key2 n'.
+Proof. apply key1_key2. Qed.
+
+Theorem ids_in_flight_range n :
+  (key1 n <> 0 /\ 32768 <= key1 n <= 49151 /\ in_space (key1 n) alo_space) /\
+  (key2 n <> 0 /\ 49152 <= key2 n <= 65535 /\ in_space (key2 n) eo_space).
+Proof.
+  pose proof (key1_range n). pose proof (key2_range n).
+  repeat split; try lia; [apply key1_space|apply key2_space].
+Qed.
+
+(* ---- C01 ---- *)
+
+Theorem record_kept st : OInv' st ->
+  (forall n, o_acked st <= n < o_acc1 st ->
+     exists retain topic msg sq, holds (o_store st) (key1 n) (pub1_packet retain topic msg n) sq
+                                 /\ sq <= o_rseq st) /\
+  (forall n, o_compl st <= n < o_recvd st ->
+     exists sq, holds (o_store st) (key2 n) (packet_pubrel (key2 n)) sq /\ sq <= o_rseq st) /\
+  (forall n, o_recvd st <= n < o_acc2 st ->
+     exists retain topic msg sq, holds (o_store st) (key2 n) (pub2_packet retain topic msg n) sq
+                                 /\ sq <= o_rseq st).
+Proof. intros [[_ []] _]. repeat split; assumption. Qed.
+
+Ltac removal_cases Hsort Hsome Hnone k :=
+  try contradiction;
+  try (rewrite store_get_put in Hnone; destruct (k =? _); [discriminate|contradiction]);
+  try (rewrite (store_get_del _ _ _ Hsort) in Hnone;
+       match type of Hnone with context [k =? ?K] =>
+         destruct (N.eqb_spec k K) as [E|]; [|contradiction] end).
+
+Theorem record_removed_only_by_ack1 st st' k :
+  sorted_keys (o_store st) -> ostep st st' -> in_space k alo_space ->
+  store_get (o_store st) k <> None -> store_get (o_store st') k = None ->
+  k = key1 (o_acked st) /\ o_acked st' = o_acked st + 1 /\ exists x, o_q1 st = x :: o_q1 st'.
+Proof.
+  intros Hsort Hstep Hsp Hsome Hnone.
+  ost_cases Hstep st; removal_cases Hsort Hsome Hnone k.
+  - split; [exact E|split; [reflexivity|exists x; assumption]].
+  - exfalso. rewrite E in Hsp. exact (space_disjoint _ Hsp (key2_space cp)).
+  - exfalso. destruct (marker_not_space k0); [assumption|]. rewrite E in Hsp. contradiction.
+Qed.
+
+Theorem record_removed_only_by_comp2 st st' k :
+  sorted_keys (o_store st) -> ostep st st' -> in_space k eo_space ->
+  store_get (o_store st) k <> None -> store_get (o_store st') k = None ->
+  k = key2 (o_compl st) /\ o_compl st' = o_compl st + 1 /\ o_compl st < o_recvd st /\
+  exists x, o_q2 st = x :: o_q2 st'.
+Proof.
+  intros Hsort Hstep Hsp Hsome Hnone.
+  ost_cases Hstep st; removal_cases Hsort Hsome Hnone k.
+  - exfalso. rewrite E in Hsp. exact (space_disjoint _ (key1_space ak) Hsp).
+  - split; [exact E|split; [reflexivity|split; [assumption|exists x; assumption]]].
+  - exfalso. destruct (marker_not_space k0); [assumption|]. rewrite E in Hsp. contradiction.
+Qed.
+
+(* ---- C03 ---- *)
+
+Theorem no_publish_after_pubrec st n : OInv' st -> o_compl st <= n < o_recvd st ->
+  (exists sq, holds (o_store st) (key2 n) (packet_pubrel (key2 n)) sq /\ sq <= o_rseq st) /\
+  (forall p sq, sq < M64 -> holds (o_store st) (key2 n) p sq ->
+     p = packet_pubrel (key2 n) /\ head_of p = 98 /\
+     forall retain topic msg n', p <> pub2_packet retain topic msg n').
+Proof.
+  intros [[_ HS] [_ Hrs]] Hn. destruct (si_s2r _ _ _ _ _ _ _ HS n Hn) as (sq0 & Hh0 & Hsq0).
+  split; [exists sq0; split; assumption|].
+  intros p sq Hb Hh. destruct (holds_inj _ _ _ _ _ _ Hh Hh0 Hb ltac:(lia)) as [-> _].
+  split; [reflexivity|split; [apply head_of_pubrel|]]. intros. apply pubrel_not_pub2.
+Qed.
+
+Lemma value_eq_dec (a b : option (list N)) : {a = b} + {a <> b}.
+Proof. decide equality. apply list_eq_dec, N.eq_dec. Qed.
+
+(* while n stays in the level-2 window, the only step writing key2 n is OS_rec2 for
+   n = recvd, and it writes the PUBREL *)
+Theorem key2_writer st st' n : OInv' st -> ostep st st' ->
+  o_compl st <= n < o_acc2 st -> o_compl st' <= n ->
+  store_get (o_store st') (key2 n) <> store_get (o_store st) (key2 n) ->
+  n = o_recvd st /\ o_recvd st' = o_recvd st + 1 /\
+  holds (o_store st') (key2 n) (packet_pubrel (key2 n)) (o_rseq st + 1).
+Proof.
+  intros [[HC HS] [Hsort Hrs]] Hstep Hn Hn' Hdiff.
+  destruct HC as [Hc1 Hc2 Hmax Hw1 Hw2 Hq1 Hq2 Hqt].
+  ost_cases Hstep st; try contradiction.
+  - exfalso. apply Hdiff, store_get_put_other. intros E. exact (key1_key2 _ _ (eq_sym E)).
+  - exfalso. apply Hdiff, store_get_put_other, key2_neq_near; lia.
+  - exfalso. apply Hdiff, store_get_del_other; [exact Hsort|].
+    intros E. exact (key1_key2 _ _ (eq_sym E)).
+  - destruct (N.eq_dec n rc) as [->|Hne].
+    + split; [reflexivity|split; [reflexivity|apply holds_put_same]].
+    + exfalso. term_cases tm Hq1 Hq2 Hqt; [rewrite len_nil in *; lia|].
+      apply Hdiff, store_get_put_other, key2_neq_near; lia.
+  - exfalso. apply Hdiff, store_get_del_other; [exact Hsort|]. apply key2_neq_near; lia.
+  - exfalso. apply Hdiff, store_get_put_other. intros E. symmetry in E. revert E.
+    apply (marker_not_key k n); assumption.
+  - exfalso. apply Hdiff, store_get_del_other; [exact Hsort|]. intros E. symmetry in E. revert E.
+    apply (marker_not_key k n); assumption.
+Qed.
+
+Theorem pubrel_stable_step st st' n : OInv' st -> ostep st st' ->
+  o_compl st <= n < o_recvd st -> o_compl st' <= n ->
+  store_get (o_store st') (key2 n) = store_get (o_store st) (key2 n).
+Proof.
+  intros Hinv Hstep Hn Hn'. pose proof (inflight_le_max _ Hinv).
+  destruct (value_eq_dec (store_get (o_store st') (key2 n)) (store_get (o_store st) (key2 n)))
+    as [E|Hdiff]; [exact E|].
+  destruct (key2_writer _ _ n Hinv Hstep ltac:(lia) Hn' Hdiff) as [E _]. lia.
+Qed.
+
+(* once the PUBREC is applied, the record of n is the same PUBREL record until the
+   PUBCOMP takes n out of the window: no step turns it back into a PUBLISH *)
+Theorem pubrel_stable st st' n : OInv' st -> osteps st st' -> o_rseq st' < M64 ->
+  o_compl st <= n < o_recvd st -> o_compl st' <= n ->
+  n < o_recvd st' /\ store_get (o_store st') (key2 n) = store_get (o_store st) (key2 n).
+Proof.
+  intros Hinv Hsteps. induction Hsteps as [st|a b c Hab Hbc IH]; intros Hrs' Hn Hn'.
+  - split; [lia|reflexivity].
+  - pose proof (ostep_mono _ _ Hab). pose proof (osteps_mono _ _ Hbc).
+    assert (Hb : OInv' b) by (apply (oinv_step _ _ Hinv Hab); lia).
+    destruct (IH Hb Hrs' ltac:(lia) Hn') as [Hlt E]. split; [exact Hlt|].
+    rewrite E. apply (pubrel_stable_step _ _ _ Hinv Hab Hn). lia.
+Qed.
+
+(* ---- C05 ---- *)
+
+Theorem resend_order st : OInv' st ->
+  (forall n n' p p' sq sq', o_acked st <= n -> n < n' -> n' < o_acc1 st -> sq < M64 -> sq' < M64 ->
+     holds (o_store st) (key1 n) p sq -> holds (o_store st) (key1 n') p' sq' -> sq < sq') /\
+  (forall n n' p p' sq sq', o_compl st <= n -> n < n' -> n' < o_recvd st -> sq < M64 -> sq' < M64 ->
+     holds (o_store st) (key2 n) p sq -> holds (o_store st) (key2 n') p' sq' -> sq < sq') /\
+  (forall n n' p p' sq sq', o_recvd st <= n -> n < n' -> n' < o_acc2 st -> sq < M64 -> sq' < M64 ->
+     holds (o_store st) (key2 n) p sq -> holds (o_store st) (key2 n') p' sq' -> sq < sq').
+Proof. intros [[_ []] _]. repeat split; assumption. Qed.
+
+(* the same with the records named: what a resend in storage order finds *)
+Theorem resend_order1 st n n' : OInv' st -> o_acked st <= n -> n < n' -> n' < o_acc1 st ->
+  exists r t ms sq r' t' ms' sq',
+    holds (o_store st) (key1 n) (pub1_packet r t ms n) sq /\
+    holds (o_store st) (key1 n') (pub1_packet r' t' ms' n') sq' /\ sq < sq' /\ sq' <= o_rseq st.
+Proof.
+  intros [[_ HS] [_ Hrs]] H1 H2 H3. destruct HS as [Hs1 _ _ _ _ Hd1 _ _].
+  destruct (Hs1 n) as (r & t & ms & sq & Hh & Hsq); [lia|].
+  destruct (Hs1 n') as (r' & t' & ms' & sq' & Hh' & Hsq'); [lia|].
+  exists r, t, ms, sq, r', t', ms', sq'. repeat split; try assumption.
+  eapply (Hd1 n n' _ _ sq sq' H1 H2 H3); try eassumption; lia.
+Qed.
+
+Theorem resend_order2r st n n' : OInv' st -> o_compl st <= n -> n < n' -> n' < o_recvd st ->
+  exists sq sq',
+    holds (o_store st) (key2 n) (packet_pubrel (key2 n)) sq /\
+    holds (o_store st) (key2 n') (packet_pubrel (key2 n')) sq' /\ sq < sq' /\ sq' <= o_rseq st.
+Proof.
+  intros [[_ HS] [_ Hrs]] H1 H2 H3. destruct HS as [_ Hs2r _ _ _ _ Hd2r _].
+  destruct (Hs2r n) as (sq & Hh & Hsq); [lia|].
+  destruct (Hs2r n') as (sq' & Hh' & Hsq'); [lia|].
+  exists sq, sq'. repeat split; try assumption.
+  eapply (Hd2r n n' _ _ sq sq' H1 H2 H3); try eassumption; lia.
+Qed.
+
+Theorem resend_order2p st n n' : OInv' st -> o_recvd st <= n -> n < n' -> n' < o_acc2 st ->
+  exists r t ms sq r' t' ms' sq',
+    holds (o_store st) (key2 n) (pub2_packet r t ms n) sq /\
+    holds (o_store st) (key2 n') (pub2_packet r' t' ms' n') sq' /\ sq < sq' /\ sq' <= o_rseq st.
+Proof.
+  intros [[_ HS] [_ Hrs]] H1 H2 H3. destruct HS as [_ _ Hs2p _ _ _ _ Hd2p].
+  destruct (Hs2p n) as (r & t & ms & sq & Hh & Hsq); [lia|].
+  destruct (Hs2p n') as (r' & t' & ms' & sq' & Hh' & Hsq'); [lia|].
+  exists r, t, ms, sq, r', t', ms', sq'. repeat split; try assumption.
+  eapply (Hd2p n n' _ _ sq sq' H1 H2 H3); try eassumption; lia.
+Qed.
+
+(* every accepted message gets the identifier of its acceptance position (the packet
+   saved is [pub1_packet .. (o_acc1 st)], whose identifier is [key1 (o_acc1 st)]), and
+   the next storage number *)
+Theorem accept_id1 st st' : ostep st st' -> o_acc1 st' <> o_acc1 st ->
+  o_acc1 st' = o_acc1 st + 1 /\
+  exists retain topic msg,
+    holds (o_store st') (key1 (o_acc1 st)) (pub1_packet retain topic msg (o_acc1 st)) (o_rseq st + 1).
+Proof.
+  intros Hstep Hne. ost_cases Hstep st; try contradiction.
+  split; [reflexivity|]. exists retain, topic, msg. apply holds_put_same.
+Qed.
+
+Theorem accept_id2 st st' : ostep st st' -> o_acc2 st' <> o_acc2 st ->
+  o_acc2 st' = o_acc2 st + 1 /\
+  exists retain topic msg,
+    holds (o_store st') (key2 (o_acc2 st)) (pub2_packet retain topic msg (o_acc2 st)) (o_rseq st + 1).
+Proof.
+  intros Hstep Hne. ost_cases Hstep st; try contradiction.
+  split; [reflexivity|]. exists retain, topic, msg. apply holds_put_same.
 Qed.
